@@ -126,6 +126,82 @@ pub fn with_code(mut s: St, bytes: &[u8]) -> St {
     s
 }
 
+/// The same instruction at the same address once more, with exactly one thing different: an operand
+/// byte, one register pair, A or F, the byte a pointer register addresses, or a control field.
+pub fn vary_one(r: &mut Rng, s0: &St, page: Page) -> St {
+    let mut s = s0.clone();
+    let pc = s.pc;
+    let oplen: u16 = match page {
+        Page::Base => 1,
+        Page::DDCB | Page::FDCB => 2, // the displacement byte sits before the opcode byte
+        _ => 2,
+    };
+    match r.below(12) {
+        0 => {
+            let v = s.peek(pc.wrapping_add(oplen)).wrapping_add(1 + (r.u8() & 0x7F));
+            s.poke(pc.wrapping_add(oplen), &[v]);
+        }
+        1 => {
+            let v = s.peek(pc.wrapping_add(oplen + 1)).wrapping_add(1 + (r.u8() & 0x7F));
+            s.poke(pc.wrapping_add(oplen + 1), &[v]);
+        }
+        2 => s.set_pair(B, v16(r)),
+        3 => s.set_pair(D, v16(r)),
+        4 => s.set_pair(H, v16(r)),
+        5 => s.set_pair(IXH, v16(r)),
+        6 => s.set_pair(IYH, v16(r)),
+        7 => s.sp = v16(r),
+        8 => {
+            s.regs[A] = s.regs[A].wrapping_add(1 + (r.u8() & 0x7F));
+        }
+        9 => s.regs[F] ^= 1 << r.below(8),
+        10 => {
+            // the byte one of the pointers addresses
+            let a = match r.below(5) {
+                0 => s.pair(H),
+                1 => s.pair(B),
+                2 => s.pair(D),
+                3 => s.sp,
+                _ => s.pair(IXH).wrapping_add(s.peek(pc.wrapping_add(2)) as i8 as i16 as u16),
+            };
+            if a.wrapping_sub(pc) >= 4 {
+                let v = s.peek(a) ^ (1 << r.below(8));
+                s.poke(a, &[v]);
+            }
+        }
+        _ => {
+            s.iff2 = !s.iff2;
+        }
+    }
+    s
+}
+
+/// Bytes around the instruction that look like instruction parts themselves: the byte before it is a
+/// prefix byte (the last operand byte of the previous instruction can be anything), the bytes after it
+/// are prefixes / (HL)-column opcodes.
+pub fn context_bytes(r: &mut Rng, s: &mut St, page: Page, op: u8) {
+    let pc = s.pc;
+    let code = encode(page, op, 0, 0, 0);
+    let before = [0xDDu8, 0xFD, 0xED, 0xCB][r.below(4) as usize];
+    s.poke(pc.wrapping_sub(1), &[before]);
+    if r.below(3) == 0 {
+        s.poke(pc.wrapping_sub(2), &[[0xDDu8, 0xFD, 0xED, 0xCB][r.below(4) as usize]]);
+    }
+    // bytes after the opcode byte(s): keep the operands random half of the time
+    let oplen: u16 = match page {
+        Page::Base => 1,
+        Page::DDCB | Page::FDCB => 4,
+        _ => 2,
+    };
+    let _ = code;
+    let pool = [0x06u8, 0x46, 0x86, 0xBE, 0xFE, 0x36, 0xCB, 0xDD, 0xFD, 0xED, 0x76];
+    for i in 0..4u16 {
+        if r.below(2) == 0 {
+            s.poke(pc.wrapping_add(oplen + i), &[pool[r.below(pool.len() as u64) as usize]]);
+        }
+    }
+}
+
 /// A state about to execute row `op` of `page`, operands boundary-biased.
 pub fn state_for(r: &mut Rng, page: Page, op: u8) -> St {
     let mut s = rand_state(r);
